@@ -379,6 +379,7 @@ class MpmcRingBuffer {
     intptr_t diff = static_cast<intptr_t>(seq) - static_cast<intptr_t>(head + 1);
     if (diff == 0) {
       if (head_.compare_exchange_strong(head, head + 1, std::memory_order_relaxed)) {
+        DISPENSO_VERIF_POINT(::dispenso::verif::kMpmcPopAfterClaim);
         T* elem = dataPtr(slot);
         item = std::move(*elem);
         elem->~T();
@@ -420,6 +421,7 @@ class MpmcRingBuffer {
     intptr_t diff = static_cast<intptr_t>(seq) - static_cast<intptr_t>(head + 1);
     if (diff == 0) {
       if (head_.compare_exchange_strong(head, head + 1, std::memory_order_relaxed)) {
+        DISPENSO_VERIF_POINT(::dispenso::verif::kMpmcPopAfterClaim);
         T* elem = dataPtr(slot);
         OpResult<T> result(std::move(*elem));
         elem->~T();
@@ -455,6 +457,7 @@ class MpmcRingBuffer {
     intptr_t diff = static_cast<intptr_t>(seq) - static_cast<intptr_t>(head + 1);
     if (diff == 0) {
       if (head_.compare_exchange_strong(head, head + 1, std::memory_order_relaxed)) {
+        DISPENSO_VERIF_POINT(::dispenso::verif::kMpmcPopAfterClaim);
         T* elem = dataPtr(slot);
         new (storage) T(std::move(*elem));
         elem->~T();
@@ -519,6 +522,7 @@ class MpmcRingBuffer {
     }
 
     if (tail_.compare_exchange_strong(tail, tail + available, std::memory_order_relaxed)) {
+      DISPENSO_VERIF_POINT(::dispenso::verif::kMpmcPushAfterClaim);
       for (size_t i = 0; i < available; ++i) {
         Slot& slot = slots_[wrapIndex(tail + i)];
         new (dataPtr(slot)) T(std::move(items[i]));
@@ -617,6 +621,7 @@ class MpmcRingBuffer {
       // producer claimed this position since the load (see "Correctness & ABA-freedom" above).
       // Fail-fast: a single attempt, no retry loop -- contention returns false, not corruption.
       if (tail_.compare_exchange_strong(tail, tail + 1, std::memory_order_relaxed)) {
+        DISPENSO_VERIF_POINT(::dispenso::verif::kMpmcPushAfterClaim);
         new (dataPtr(slot)) T(std::forward<Args>(args)...);
         slot.seq.store(tail + 1, std::memory_order_release);
         return true;
